@@ -5,6 +5,7 @@ package c05
 import (
 	"bytes"
 	"encoding/binary"
+	"errors"
 	"fmt"
 	"os"
 	"path/filepath"
@@ -13,6 +14,7 @@ import (
 	"testing"
 	"time"
 
+	"github.com/lindb/common/pkg/logger"
 	"pgregory.net/rapid"
 
 	"github.com/lindb/lindb/pkg/queue"
@@ -23,24 +25,142 @@ import (
 
 func TestMain(m *testing.M) { ev.Main(m) }
 
-// ---- self-describing messages ------------------------------------------------------------------
+func init() {
+	// GC logs every removed page at info level
+	_ = logger.RunningAtomicLevel.UnmarshalText([]byte("error"))
+}
 
+// ---- messages ------------------------------------------------------------------------------------
+
+// Assumption of the check (pkg/queue/constants.go): the data page size is this constant.
+const (
+	dataPageSize = 128 << 20
+	sparseMin    = 4 << 20  // messages above this size are mostly zero (cheap to produce and to compare)
+	markStep     = 64 << 10 // distance of the position-dependent marks of such a message
+	nearEnd      = 1 << 20  // "the write cursor is near the end of its data page"
+)
+
+// msg is one appended message. Its bytes are a pure function of (id, size): any size >= 0 is
+// allowed (an empty message is a legal append); messages of 8 bytes and more carry their id.
 type msg struct {
 	id   uint64
-	size int // >= 8
+	size int
+}
+
+func (m msg) sparse() bool { return m.size > sparseMin }
+
+func (m msg) mark(p int) (b [16]byte) {
+	binary.LittleEndian.PutUint64(b[:], m.id)
+	binary.LittleEndian.PutUint64(b[8:], (uint64(p)+1)*0x9E3779B97F4A7C15^m.id)
+	return b
+}
+
+// putMarks writes the non-zero bytes of a sparse message into a zeroed buffer.
+func (m msg) putMarks(b []byte) {
+	for p := 0; p+16 <= m.size; p += markStep {
+		k := m.mark(p)
+		copy(b[p:], k[:])
+	}
+	k := m.mark(m.size)
+	copy(b[m.size-16:], k[:])
+}
+
+func (m msg) clearMarks(b []byte) {
+	var z [16]byte
+	for p := 0; p+16 <= m.size; p += markStep {
+		copy(b[p:], z[:])
+	}
+	copy(b[m.size-16:], z[:])
 }
 
 func (m msg) bytes() []byte {
 	b := make([]byte, m.size)
-	binary.LittleEndian.PutUint64(b, m.id)
+	if m.sparse() {
+		m.putMarks(b)
+		return b
+	}
 	x := m.id*0x9E3779B97F4A7C15 + 1
-	for i := 8; i < m.size; i++ {
+	i := 0
+	if m.size >= 8 {
+		binary.LittleEndian.PutUint64(b, m.id)
+		i = 8
+	}
+	for ; i < m.size; i++ {
 		x ^= x << 13
 		x ^= x >> 7
 		x ^= x << 17
 		b[i] = byte(x)
 	}
 	return b
+}
+
+var zeroChunk [markStep]byte
+
+// equal reports whether data is byte for byte the message.
+func (m msg) equal(data []byte) bool {
+	if len(data) != m.size {
+		return false
+	}
+	if !m.sparse() {
+		return bytes.Equal(data, m.bytes())
+	}
+	tail := m.size - 16
+	for p := 0; p < m.size; p += markStep {
+		end := p + markStep
+		if end > m.size {
+			end = m.size
+		}
+		if end > tail || p+16 > m.size { // chunk touches the tail mark: build it explicitly
+			e := make([]byte, end-p)
+			if p+16 <= m.size {
+				k := m.mark(p)
+				copy(e, k[:])
+			}
+			k := m.mark(m.size)
+			for i := tail; i < m.size; i++ {
+				if i >= p && i < end {
+					e[i-p] = k[i-tail]
+				}
+			}
+			if !bytes.Equal(data[p:end], e) {
+				return false
+			}
+			continue
+		}
+		k := m.mark(p)
+		if !bytes.Equal(data[p:p+16], k[:]) || !bytes.Equal(data[p+16:end], zeroChunk[:end-p-16]) {
+			return false
+		}
+	}
+	return true
+}
+
+// One shared buffer for sparse messages (and for messages above the size limit); the appends
+// that use it never overlap.
+var (
+	bigBuf  []byte
+	bigBusy bool
+)
+
+func bigBuffer(n int) []byte {
+	if bigBuf == nil {
+		bigBuf = make([]byte, dataPageSize+1<<16)
+	}
+	if bigBusy {
+		panic("harness: the shared big buffer is in use")
+	}
+	bigBusy = true
+	return bigBuf[:n]
+}
+
+// materialize returns the bytes to append and a function that gives the buffer back.
+func (m msg) materialize() ([]byte, func()) {
+	if !m.sparse() {
+		return m.bytes(), func() {}
+	}
+	b := bigBuffer(m.size)
+	m.putMarks(b)
+	return b, func() { m.clearMarks(b); bigBusy = false }
 }
 
 func idOf(data []byte) (uint64, bool) {
@@ -58,11 +178,23 @@ type world struct {
 	q        queue.Queue
 	byID     map[uint64]msg
 	okPuts   int              // appends that returned success since the queue was created
-	assigned map[int64]uint64 // sequence -> message id, fixed once observed
+	assigned map[int64]uint64 // sequence -> message id, fixed once known
+	pending  []uint64         // successfully appended by overlapping appenders, sequence not observed yet
 	ops      []string
 	nextID   uint64
 	classes  map[string]int
 	nt       int
+
+	// generation only (never used by the oracle): model of the write cursor and the profile
+	heavy      bool // page-boundary profile: the cursor is brought to the end of a data page
+	off        int  // modelled offset of the write cursor in its data page
+	fills      int  // expensive appends (about one data page) so far
+	crashPuts  int
+	lastSize   int   // size of the last message appended (-1: none / unknown)
+	firstSeq   int64 // first sequence appended by this history
+	maxData    int64 // highest data page index acquired (observed at the page factory)
+	insideGC   bool
+	gcRollover bool
 }
 
 func (w *world) logf(format string, args ...any) { w.ops = append(w.ops, fmt.Sprintf(format, args...)) }
@@ -79,53 +211,92 @@ func (w *world) newMsg(size int) msg {
 	return m
 }
 
-// scan checks every sequence in (ack, appended] of q against the model.
-// extra are messages that may legitimately be visible although their Put has not returned.
-func scan(q queue.Queue, byID map[uint64]msg, assigned map[int64]uint64, where string) error {
+func head(data []byte) string {
+	if len(data) > 12 {
+		return fmt.Sprintf("%x..", data[:12])
+	}
+	return fmt.Sprintf("%x", data)
+}
+
+// scan checks every sequence in (ack, appended] of q against the model: a sequence whose message
+// is known must return exactly that message; any other sequence must hold one of the pending
+// messages (appended by overlapping appenders, or in flight at a crash), each at most once.
+func scan(q queue.Queue, byID map[uint64]msg, assigned map[int64]uint64, pending *[]uint64, where string) error {
 	app, ack := q.AppendedSeq(), q.AcknowledgedSeq()
 	if ack > app {
 		return fmt.Errorf("%s: acknowledged %d > appended %d", where, ack, app)
-	}
-	seen := map[uint64]int64{}
-	for s, id := range assigned {
-		if s <= app {
-			seen[id] = s
-		}
 	}
 	for s := ack + 1; s <= app; s++ {
 		data, err := q.Get(s)
 		if err != nil {
 			return fmt.Errorf("%s: Get(%d) with appended=%d ack=%d: %v", where, s, app, ack, err)
 		}
-		id, ok := idOf(data)
-		if !ok {
-			return fmt.Errorf("%s: sequence %d holds %d bytes, no appended message is that short", where, s, len(data))
+		if id, ok := assigned[s]; ok {
+			m := byID[id]
+			if m.equal(data) {
+				continue
+			}
+			if other, ok := idOf(data); ok && other != id {
+				if _, known := byID[other]; known {
+					return fmt.Errorf("%s: sequence %d held message %d before, now message %d", where, s, id, other)
+				}
+			}
+			return fmt.Errorf("%s: sequence %d: message %d read back with different bytes (len %d %s, appended len %d)",
+				where, s, id, len(data), head(data), m.size)
 		}
-		m, known := byID[id]
-		if !known {
-			return fmt.Errorf("%s: sequence %d holds bytes of no appended message (id %d, %d bytes)", where, s, id, len(data))
+		found := -1
+		want, hasID := idOf(data) // messages of 8 bytes and more carry their id
+		for i, id := range *pending {
+			if m := byID[id]; m.size == len(data) && (!hasID || id == want) && m.equal(data) {
+				found = i
+				break
+			}
 		}
-		if !bytes.Equal(data, m.bytes()) {
-			return fmt.Errorf("%s: sequence %d: message %d read back with different bytes (len %d, appended len %d)", where, s, id, len(data), m.size)
+		if found < 0 {
+			if id, ok := idOf(data); ok {
+				if _, known := byID[id]; known {
+					for s2, id2 := range assigned {
+						if id2 == id && s2 != s {
+							return fmt.Errorf("%s: message %d is stored under sequences %d and %d", where, id, s2, s)
+						}
+					}
+				}
+			}
+			return fmt.Errorf("%s: sequence %d holds %d bytes (%s) that are not the bytes of an appended message waiting for a sequence",
+				where, s, len(data), head(data))
 		}
-		if prev, ok := assigned[s]; ok && prev != id {
-			return fmt.Errorf("%s: sequence %d held message %d before, now message %d", where, s, prev, id)
+		assigned[s] = (*pending)[found]
+		*pending = append((*pending)[:found], (*pending)[found+1:]...)
+	}
+	return nil
+}
+
+func (w *world) checkErr(where string) error {
+	if err := scan(w.q, w.byID, w.assigned, &w.pending, where); err != nil {
+		return err
+	}
+	if app := w.q.AppendedSeq(); app != int64(w.okPuts)-1 {
+		return fmt.Errorf("%s: appended sequence %d after %d successful appends (sequences must be dense, starting at 0)", where, app, w.okPuts)
+	}
+	if n := len(w.pending); n > 0 {
+		// only sequences that were acknowledged before they could be read may be left over
+		unseen := 0
+		for s, ack := w.firstSeq, w.q.AcknowledgedSeq(); s <= ack; s++ {
+			if _, ok := w.assigned[s]; !ok {
+				unseen++
+			}
 		}
-		if other, ok := seen[id]; ok && other != s {
-			return fmt.Errorf("%s: message %d is stored under sequences %d and %d", where, id, other, s)
+		if n > unseen {
+			return fmt.Errorf("%s: message %d was appended successfully but is stored under no sequence", where, w.pending[0])
 		}
-		seen[id] = s
-		assigned[s] = id
+		w.pending = nil
 	}
 	return nil
 }
 
 func (w *world) check(where string) {
-	if err := scan(w.q, w.byID, w.assigned, where); err != nil {
+	if err := w.checkErr(where); err != nil {
 		w.fatalf("%v", err)
-	}
-	if app := w.q.AppendedSeq(); app != int64(w.okPuts)-1 {
-		w.fatalf("%s: appended sequence %d after %d successful appends (sequences must be dense, starting at 0)", where, app, w.okPuts)
 	}
 }
 
@@ -137,39 +308,87 @@ func (w *world) open() {
 	w.q = q
 }
 
+// genSize: the boundary payload sizes (empty, shorter than a word) are classes of their own.
 func genSize(t *rapid.T) int {
-	switch rapid.IntRange(0, 9).Draw(t, "sizeKind") {
+	switch rapid.IntRange(0, 11).Draw(t, "sizeKind") {
 	case 0:
-		return 8
+		return 0
 	case 1:
-		return rapid.IntRange(8, 64).Draw(t, "size")
+		return rapid.IntRange(1, 7).Draw(t, "size")
 	case 2:
-		return rapid.IntRange(60000, 70000).Draw(t, "size")
+		return 8
 	case 3:
+		return rapid.IntRange(8, 64).Draw(t, "size")
+	case 4:
+		return rapid.IntRange(60000, 70000).Draw(t, "size")
+	case 5:
 		return rapid.IntRange(1<<20, 3<<20).Draw(t, "size")
 	default:
-		return rapid.IntRange(8, 4096).Draw(t, "size")
+		return rapid.IntRange(0, 4096).Draw(t, "size")
 	}
 }
 
 // ---- operations --------------------------------------------------------------------------------
 
-func (w *world) opPut() {
-	m := w.newMsg(genSize(w.t))
-	w.logf("put id=%d size=%d", m.id, m.size)
-	before := w.q.AppendedSeq()
-	if err := w.q.Put(m.bytes()); err != nil {
-		w.fatalf("put: %v", err)
+func (w *world) room() int { return dataPageSize - w.off }
+
+// advance moves the modelled write cursor.
+func (w *world) advance(size int) {
+	if w.off+size > dataPageSize {
+		w.off = 0
 	}
-	w.okPuts++
-	if after := w.q.AppendedSeq(); after != before+1 {
-		w.fatalf("appended sequence moved from %d to %d by one append", before, after)
+	w.off += size
+}
+
+func (w *world) noteSize(size int) {
+	switch {
+	case size == 0:
+		w.classes["put-empty"]++
+	case size < 8:
+		w.classes["put-short(1-7B)"]++
 	}
 }
 
-// opOverlappingPut: appender B performs a complete Put while appender A is between reserving
+// putMsg appends m while no other appender runs: it must get the sequence after the last one.
+func (w *world) putMsg(m msg) error {
+	b, release := m.materialize()
+	defer release()
+	before := w.q.AppendedSeq()
+	if err := w.q.Put(b); err != nil {
+		return fmt.Errorf("put of %d bytes: %v", m.size, err)
+	}
+	after := w.q.AppendedSeq()
+	if after != before+1 {
+		return fmt.Errorf("appended sequence moved from %d to %d by one append", before, after)
+	}
+	w.okPuts++
+	if prev, ok := w.assigned[after]; ok && prev != m.id {
+		return fmt.Errorf("sequence %d held message %d and was handed out again to a new append", after, prev)
+	}
+	w.assigned[after] = m.id
+	if w.room() == m.size {
+		w.classes["put-exact-fit(page full)"]++
+	} else if w.room() < m.size {
+		w.classes["put-exceeds-room(roll-over)"]++
+	}
+	w.advance(m.size)
+	w.lastSize = m.size
+	w.noteSize(m.size)
+	return nil
+}
+
+func (w *world) opPut() {
+	m := w.newMsg(w.genPutSize())
+	w.logf("put id=%d size=%d", m.id, m.size)
+	if err := w.putMsg(m); err != nil {
+		w.fatalf("%v", err)
+	}
+}
+
+// opOverlappingPut: appender B performs complete Puts while appender A is between reserving
 // its space and publishing its sequence (the seam is the data-page store of A). If the queue
-// serialises appends B simply finishes after A.
+// serialises appends B simply finishes after A. Which sequence each of them gets is observed by
+// the next scan (the messages are pending until then).
 func (w *world) opOverlappingPut() {
 	a := w.newMsg(genSize(w.t))
 	nb := rapid.IntRange(1, 2).Draw(w.t, "overlapCount")
@@ -215,7 +434,33 @@ func (w *world) opOverlappingPut() {
 		w.fatalf("overlapping put failed: A=%v B=%v", errA, errB)
 	}
 	w.okPuts += 1 + nb
+	w.pending = append(w.pending, a.id)
+	w.advance(a.size)
+	w.noteSize(a.size)
+	for _, b := range bs {
+		w.pending = append(w.pending, b.id)
+		w.advance(b.size) // the order of A and B is not known to the model: approximation, generation only
+		w.noteSize(b.size)
+	}
+	w.lastSize = -1
 	w.classes["overlapping-put"]++
+	w.check("after the overlapping appends")
+	// appender B waited for each of its appends to return: its messages keep their order
+	// (messages of less than 8 bytes with equal bytes are interchangeable and not ordered here)
+	last := int64(-1)
+	for _, b := range bs {
+		if b.size < 8 {
+			continue
+		}
+		for s, id := range w.assigned {
+			if id == b.id {
+				if s < last {
+					w.fatalf("message %d was appended after an earlier append of the same appender returned, but has the smaller sequence %d < %d", b.id, s, last)
+				}
+				last = s
+			}
+		}
+	}
 }
 
 // opBoundaryReopen: on a fresh queue, move the append position (production API SetAppendedSeq, the
@@ -229,6 +474,7 @@ func (w *world) opBoundaryReopen() {
 	w.logf("setAppendedSeq %d (fresh queue), %d appends up to the last slot of index page %d, reopen, append", start, k, page-1)
 	w.q.SetAppendedSeq(start)
 	w.okPuts = int(start) + 1
+	w.firstSeq = start + 1
 	for i := 0; i < k; i++ {
 		w.opPut()
 	}
@@ -243,11 +489,43 @@ func (w *world) opBoundaryReopen() {
 	w.classes["reopen-at-index-page-boundary"]++
 }
 
+// tailClass names the kind of the last appended message when it is still above the acknowledged
+// position ("" otherwise): what a reopen / a crash image finds at the end of the log.
+func (w *world) tailClass() string {
+	if w.q.AppendedSeq() <= w.q.AcknowledgedSeq() {
+		return ""
+	}
+	switch {
+	case w.lastSize == 0:
+		return "empty-tail"
+	case w.lastSize > 0 && w.lastSize < 8:
+		return "short-tail(1-7B)"
+	case w.lastSize >= 8 && w.off == dataPageSize:
+		return "tail-ends-at-page-end"
+	}
+	return ""
+}
+
 func (w *world) opReopen() {
 	w.logf("reopen")
+	if c := w.tailClass(); c != "" {
+		w.classes["reopen-with-"+c]++
+	}
 	w.q.Close()
 	w.open()
 	w.classes["reopen"]++
+}
+
+func (w *world) ackTo(s int64) error {
+	app := w.q.AppendedSeq()
+	w.q.SetAcknowledgedSeq(s)
+	if got := w.q.AcknowledgedSeq(); got != s {
+		return fmt.Errorf("acknowledged sequence is %d after SetAcknowledgedSeq(%d) (appended %d)", got, s, app)
+	}
+	if s == app {
+		w.classes["ack-everything(drained)"]++
+	}
+	return nil
 }
 
 func (w *world) opAck() {
@@ -255,11 +533,13 @@ func (w *world) opAck() {
 	if app <= ack {
 		w.t.Skip("nothing to acknowledge")
 	}
-	s := rapid.Int64Range(ack+1, app).Draw(w.t, "ack")
+	s := app
+	if rapid.IntRange(0, 4).Draw(w.t, "ackKind") > 1 {
+		s = rapid.Int64Range(ack+1, app).Draw(w.t, "ack")
+	}
 	w.logf("ack %d", s)
-	w.q.SetAcknowledgedSeq(s)
-	if got := w.q.AcknowledgedSeq(); got != s {
-		w.fatalf("acknowledged sequence is %d after SetAcknowledgedSeq(%d) (appended %d)", got, s, app)
+	if err := w.ackTo(s); err != nil {
+		w.fatalf("%v", err)
 	}
 }
 
@@ -268,10 +548,41 @@ func (w *world) opGC() {
 	w.q.GC()
 }
 
+// opPutTooBig: a message above the documented limit (one data page) is refused and consumes
+// neither a sequence nor space.
+func (w *world) opPutTooBig() {
+	extra := rapid.SampledFrom([]int{1, 2, 8, 4096}).Draw(w.t, "aboveLimit")
+	w.logf("put of %d bytes (limit %d)", dataPageSize+extra, dataPageSize)
+	before := w.q.AppendedSeq()
+	b := bigBuffer(dataPageSize + extra)
+	err := w.q.Put(b)
+	bigBusy = false
+	if !errors.Is(err, queue.ErrExceedingMessageSizeLimit) {
+		w.fatalf("put of %d bytes returned %v, want ErrExceedingMessageSizeLimit", dataPageSize+extra, err)
+	}
+	if after := w.q.AppendedSeq(); after != before {
+		w.fatalf("a refused append moved the appended sequence from %d to %d", before, after)
+	}
+	w.classes["put-above-limit-refused"]++
+}
+
 // opCrashPut appends one message while a directory image is taken around every store of the
 // append; every image is then recovered with the production open path.
 func (w *world) opCrashPut(all bool) {
-	m := w.newMsg(genSize(w.t))
+	maxImages := 4
+	expensive := w.off > sparseMin || w.maxData > 0
+	if expensive {
+		// images of a queue that holds about a data page of bytes are expensive: one such
+		// operation per history and 3 images, also in the thorough tier
+		if w.crashPuts > 0 {
+			w.opPut()
+			return
+		}
+		maxImages = 3
+		w.crashPuts++
+	}
+	tail := w.tailClass()
+	m := w.newMsg(w.genPutSize())
 	w.logf("crashPut id=%d size=%d", m.id, m.size)
 	imgDir, err := os.MkdirTemp("", "c05img-")
 	if err != nil {
@@ -279,25 +590,40 @@ func (w *world) opCrashPut(all bool) {
 	}
 	defer os.RemoveAll(imgDir)
 	im := &crash.Imager{Root: w.dir, OutDir: imgDir}
+	if expensive {
+		// the images are chosen before the append (an append makes 10 to 14 hook calls)
+		want := map[int]bool{rapid.IntRange(0, 9).Draw(w.t, "image"): true}
+		for len(want) < maxImages {
+			want[rapid.IntRange(0, 13).Draw(w.t, "image")] = true
+		}
+		im.Want = func(p crash.Point) bool { return want[p.Seq] }
+	}
 	im.Begin(len(w.ops), "put")
 	qsim.SetHook(im.Hook)
 	before := w.okPuts
-	errPut := w.q.Put(m.bytes())
+	rolled := w.room() < m.size
+	errPut := w.putMsg(m)
 	qsim.SetHook(nil)
 	im.End()
 	if errPut != nil {
-		w.fatalf("put: %v", errPut)
+		w.fatalf("%v", errPut)
 	}
-	w.okPuts++
 	pts := im.Points
-	idx := make([]int, 0, len(pts))
-	if all || len(pts) <= 4 {
+	var idx []int
+	switch {
+	case expensive:
+		for i, p := range pts {
+			if p.Dir != "" {
+				idx = append(idx, i)
+			}
+		}
+	case all || len(pts) <= maxImages:
 		for i := range pts {
 			idx = append(idx, i)
 		}
-	} else {
+	default:
 		seen := map[int]bool{}
-		for len(idx) < 4 {
+		for len(idx) < maxImages {
 			i := rapid.IntRange(0, len(pts)-1).Draw(w.t, "image")
 			if !seen[i] {
 				seen[i] = true
@@ -305,12 +631,22 @@ func (w *world) opCrashPut(all bool) {
 			}
 		}
 	}
+	n := len(idx)
 	for _, i := range idx {
 		p := pts[i]
 		w.recoverImage(p, before, m)
 		w.classes["img-"+p.FSOp]++
+		if tail != "" {
+			w.classes["crash-image-with-"+tail]++
+		}
+		if rolled {
+			w.classes["crash-image-of-roll-over-append"]++
+		}
 		ev.Case("crash-points", fmt.Sprintf("%v|%s", w.ops, p), true, nil, nil)
 		w.nt++
+	}
+	if n == 0 {
+		w.fatalf("harness: no crash image was taken (%d hook calls)", len(im.Points))
 	}
 	im.Drop()
 }
@@ -331,19 +667,25 @@ func (w *world) recoverImage(p crash.Point, putsBefore int, inflight msg) {
 			assigned[s] = id
 		}
 	}
-	if err := scan(rq, w.byID, assigned, "image "+p.String()); err != nil {
+	pending := []uint64{inflight.id}
+	if err := scan(rq, w.byID, assigned, &pending, "image "+p.String()); err != nil {
 		w.fatalf("%v", err)
 	}
 	if app == int64(putsBefore) && assigned[app] != inflight.id && rq.AcknowledgedSeq() < app {
 		w.fatalf("image %s: sequence %d is visible but does not hold the append in flight", p, app)
 	}
-	// keep appending on the recovered queue: earlier messages must stay intact
+	// keep appending on the recovered queue (the first new message has a boundary size in two of
+	// three images): earlier messages must stay intact
 	byID := map[uint64]msg{}
 	for k, v := range w.byID {
 		byID[k] = v
 	}
+	pending = nil
 	for i := 0; i < 2; i++ {
 		n := msg{id: 1<<40 + uint64(i), size: 100 + 50*i}
+		if i == 0 {
+			n.size = []int{100, 0, 5}[p.Seq%3]
+		}
 		byID[n.id] = n
 		if err := rq.Put(n.bytes()); err != nil {
 			w.fatalf("image %s: append after recovery: %v", p, err)
@@ -351,38 +693,61 @@ func (w *world) recoverImage(p crash.Point, putsBefore int, inflight msg) {
 		if got := rq.AppendedSeq(); got != app+int64(i)+1 {
 			w.fatalf("image %s: append after recovery moved appended sequence to %d, want %d", p, got, app+int64(i)+1)
 		}
-		if err := scan(rq, byID, assigned, fmt.Sprintf("image %s after %d new appends", p, i+1)); err != nil {
+		assigned[app+int64(i)+1] = n.id
+		if err := scan(rq, byID, assigned, &pending, fmt.Sprintf("image %s after %d new appends", p, i+1)); err != nil {
 			w.fatalf("%v", err)
 		}
 	}
 }
 
-func runHistory(t *rapid.T, thorough bool) {
-	dir, err := os.MkdirTemp("", "c05-")
+func newWorld(t *rapid.T, prefix string) (*world, func()) {
+	dir, err := os.MkdirTemp("", prefix)
 	if err != nil {
 		t.Fatalf("harness: %v", err)
 	}
-	w := &world{t: t, dir: filepath.Join(dir, "q"), byID: map[uint64]msg{}, assigned: map[int64]uint64{}, classes: map[string]int{}}
-	qsim.Install(nil)
-	defer func() {
-		qsim.Uninstall()
+	w := &world{t: t, dir: filepath.Join(dir, "q"), byID: map[uint64]msg{}, assigned: map[int64]uint64{}, classes: map[string]int{}, lastSize: -1}
+	installSeams(w)
+	return w, func() {
+		uninstallSeams()
+		bigBusy = false
 		if w.q != nil {
 			w.q.Close()
 		}
 		_ = os.RemoveAll(dir)
-	}()
+	}
+}
+
+func runHistory(t *rapid.T, thorough bool) {
+	w, cleanup := newWorld(t, "c05-")
+	defer cleanup()
 	w.open()
 	if rapid.IntRange(0, 3).Draw(t, "startAtIndexPageBoundary") == 0 {
 		w.opBoundaryReopen()
 	}
+	if rapid.IntRange(0, 1).Draw(t, "pageBoundaryProfile") == 0 {
+		// page-boundary profile: a few small appends, then the write cursor is brought close to
+		// the end of its data page; from there on appends are sized relative to the room left
+		w.heavy = true
+		w.classes["profile-page-boundary"]++
+		for i, n := 0, rapid.IntRange(0, 3).Draw(t, "before"); i < n; i++ {
+			w.opPut()
+		}
+		w.opFill()
+		w.check("after the fill")
+	}
 	t.Repeat(map[string]func(*rapid.T){
 		"put":            func(t *rapid.T) { w.t = t; w.opPut() },
 		"put2":           func(t *rapid.T) { w.t = t; w.opPut() },
+		"putTooBig":      func(t *rapid.T) { w.t = t; w.opPutTooBig() },
+		"fill":           func(t *rapid.T) { w.t = t; w.opFill() },
 		"overlappingPut": func(t *rapid.T) { w.t = t; w.opOverlappingPut() },
 		"crashPut":       func(t *rapid.T) { w.t = t; w.opCrashPut(thorough) },
+		"crashPut2":      func(t *rapid.T) { w.t = t; w.opCrashPut(thorough) },
 		"reopen":         func(t *rapid.T) { w.t = t; w.opReopen() },
 		"ack":            func(t *rapid.T) { w.t = t; w.opAck() },
 		"gc":             func(t *rapid.T) { w.t = t; w.opGC() },
+		"gcInterleaved":  func(t *rapid.T) { w.t = t; w.opGCInterleaved() },
+		"gcInterleaved2": func(t *rapid.T) { w.t = t; w.opGCInterleaved() },
 		"":               func(t *rapid.T) { w.t = t; w.check("after step") },
 	})
 	w.t = t
@@ -391,7 +756,7 @@ func runHistory(t *rapid.T, thorough bool) {
 	w.check("after final reopen")
 	w.opPut()
 	w.check("after final append")
-	nt := w.nt > 0 || (w.classes["overlapping-put"] > 0 && w.classes["reopen"] > 1)
+	nt := w.nt > 0 || (w.classes["overlapping-put"] > 0 && w.classes["reopen"] > 1) || w.classes["gc-interleaved-with-appends"] > 0
 	for c, n := range w.classes {
 		ev.Class("TestQueueHistory", c, n)
 	}
@@ -404,38 +769,29 @@ func TestQueueHistory(t *testing.T) {
 }
 
 // TestRollOver: messages of tens of MiB force data-page roll-over (the page size is a constant
-// 128 MiB); reopen / crash images around the roll-over; everything stays readable.
+// 128 MiB); reopen / ack / gc (plain or interleaved with appends) around the roll-over;
+// everything stays readable.
 func TestRollOver(t *testing.T) {
 	rapid.Check(t, func(t *rapid.T) {
-		dir, err := os.MkdirTemp("", "c05r-")
-		if err != nil {
-			t.Fatalf("harness: %v", err)
-		}
-		w := &world{t: t, dir: filepath.Join(dir, "q"), byID: map[uint64]msg{}, assigned: map[int64]uint64{}, classes: map[string]int{}}
-		qsim.Install(nil)
-		defer func() {
-			qsim.Uninstall()
-			if w.q != nil {
-				w.q.Close()
-			}
-			_ = os.RemoveAll(dir)
-		}()
+		w, cleanup := newWorld(t, "c05r-")
+		defer cleanup()
 		w.open()
+		w.heavy = true
+		w.fills = maxFills // the big messages of this test do the filling
 		n := rapid.IntRange(3, 6).Draw(t, "bigMessages")
 		total := 0
 		for i := 0; i < n; i++ {
 			size := rapid.IntRange(30<<20, 70<<20).Draw(t, "bigSize")
 			m := w.newMsg(size)
 			w.logf("put id=%d size=%d", m.id, m.size)
-			if err := w.q.Put(m.bytes()); err != nil {
-				w.fatalf("put: %v", err)
+			if err := w.putMsg(m); err != nil {
+				w.fatalf("%v", err)
 			}
-			w.okPuts++
 			total += size
 			if rapid.IntRange(0, 2).Draw(t, "small") == 0 {
 				w.opPut()
 			}
-			switch rapid.IntRange(0, 4).Draw(t, "between") {
+			switch rapid.IntRange(0, 5).Draw(t, "between") {
 			case 0:
 				w.opReopen()
 			case 1:
@@ -443,6 +799,11 @@ func TestRollOver(t *testing.T) {
 					w.opAck()
 					w.opGC()
 				}
+			case 2:
+				if w.q.AppendedSeq() > w.q.AcknowledgedSeq() {
+					w.opAck()
+				}
+				w.opGCInterleaved()
 			}
 			w.check("after big append")
 		}
@@ -450,6 +811,9 @@ func TestRollOver(t *testing.T) {
 		w.check("after reopen")
 		w.opPut()
 		w.check("after final append")
+		for c, n := range w.classes {
+			ev.Class("TestRollOver", c, n)
+		}
 		ev.Case("TestRollOver", strings.Join(w.ops, ";"), total > 128<<20, nil, map[string]any{"history": w.ops, "bytes": total})
 	})
 }
@@ -520,7 +884,13 @@ func TestConcurrentAppenders(t *testing.T) {
 		if app := q.AppendedSeq(); app != int64(total)-1 {
 			fail(fmt.Errorf("appended sequence %d after %d successful concurrent appends", app, total))
 		}
-		if err := scan(q, byID, assigned, "after concurrent appends"); err != nil {
+		pending := make([]uint64, 0, total)
+		for _, ms := range all {
+			for _, m := range ms {
+				pending = append(pending, m.id)
+			}
+		}
+		if err := scan(q, byID, assigned, &pending, "after concurrent appends"); err != nil {
 			fail(err)
 		}
 		if len(assigned) != total {
@@ -549,7 +919,8 @@ func TestConcurrentAppenders(t *testing.T) {
 			if err := q.Put(m.bytes()); err != nil {
 				fail(err)
 			}
-			if err := scan(q, byID, assigned, fmt.Sprintf("after reopen and %d more appends", i+1)); err != nil {
+			assigned[int64(total+i)] = m.id
+			if err := scan(q, byID, assigned, &pending, fmt.Sprintf("after reopen and %d more appends", i+1)); err != nil {
 				fail(err)
 			}
 		}
